@@ -577,3 +577,36 @@ Qed.
 Definition ex4 (proto ff1 ff2 : N) (payload : list N) : list N :=
   [69; 0; 0; 20 + N.of_nat (length payload); 0; 0; ff1; ff2; 64; proto; 0; 0; 10; 1; 2; 3; 192; 168; 7; 9] ++ payload.
 Definition ex_tcp (flags : N) : list N := [4; 210; 0; 80; 1; 2; 3; 4; 9; 9; 9; 9; 80; flags; 16; 0; 0; 0; 0; 0].
+
+(* ---------------------------------------------------------------------------------------------- *)
+(** * The callers *)
+
+Lemma callers_ok p buflen ws : bytes_ok p = true ->
+  (reject_inside p buflen = Ok ws -> emitted_ok p buflen ws = true) /\
+  (reject_outside p buflen = Ok ws -> emitted_ok p (outside_cap buflen) ws = true).
+Proof.
+  intros Hb.
+  assert (G : forall cap o, create_reject p cap = Ok o -> o <> [] ->
+                reply_ok p o && (blen o <=? rej_max_reject_packet_size) && negb (must_be_silent p cap) = true).
+  { intros cap o Hc Hne. destruct (reject_wellformed p cap o Hb Hc Hne) as (R & _ & M).
+    rewrite R. apply N.leb_le in M. rewrite M. cbn [andb].
+    destruct (must_be_silent p cap) eqn:S; [|reflexivity].
+    rewrite (reject_silent p cap Hb S) in Hc. inversion Hc. congruence. }
+  split; intros H.
+  - unfold reject_inside in H. destruct (create_reject p buflen) as [o|e|] eqn:C; try discriminate.
+    destruct o as [|x o]; inversion H; subst; [reflexivity|]. apply (G buflen); [exact C|discriminate].
+  - unfold reject_outside in H. destruct (create_reject p (outside_cap buflen)) as [o|e|] eqn:C; try discriminate.
+    destruct o as [|x o]; [inversion H; reflexivity|].
+    destruct (rej_max_reject_packet_size <? blen (x :: o)); inversion H; subst; [reflexivity|].
+    apply (G (outside_cap buflen)); [exact C|discriminate].
+Qed.
+
+Lemma callers_total p buflen : bytes_ok p = true ->
+  (exists ws, reject_inside p buflen = Ok ws) /\ (exists ws, reject_outside p buflen = Ok ws).
+Proof.
+  intros Hb. unfold reject_inside, reject_outside.
+  destruct (reject_total p buflen Hb) as (o1 & ->). destruct (reject_total p (outside_cap buflen) Hb) as (o2 & ->).
+  split.
+  - destruct o1; eauto.
+  - destruct o2; eauto. destruct (rej_max_reject_packet_size <? blen (n :: o2)); eauto.
+Qed.
